@@ -214,6 +214,12 @@ func (r *runner) checkExpiry(at int, o Op) *Failure {
 		if implExp == modelExp {
 			continue
 		}
+		// An expire time at or before the epoch cannot be stored in the header's
+		// unsigned second; the property only demands that the key is dead, which
+		// any stored second in [1, second of the command] gives (0 = no expiry).
+		if modelExp <= 0 && implExp >= 1 && implExp <= o.Ts/1e9 {
+			continue
+		}
 		detail := fmt.Sprintf("%s %q: stored expire time %d, model %d (log second of the command %d)", typ, tk, implExp, modelExp, o.Ts/1e9)
 		switch {
 		case modelExp == 0 && implExp != 0 && (overwriteCmds[o.Name] || r.pre.expired):
